@@ -68,7 +68,10 @@ SPEC = {
     "tables": ["CQasmTemplates"],
     "props_module": PROPS_MODULE,
     "required": ["cq_structure", "cq_structure_err", "cq_structure_panic", "cq_refuses", "cq_not_bracketing",
-                 "cq_not_restores", "cq_bracketing_agrees_with_circuit", "templates_as_modelled", "cq_const1_plain",
+                 "cq_not_restores", "cq_bracketing_agrees_with_circuit", "cq_wellformed_partial", "good_gates",
+                 "cq_param_cry_assembled", "cq_param_crx_assembled", "cq_param_cu3_assembled", "cq_param_ccry_assembled",
+                 "cq_param_ccrx_assembled", "cq_ccrz_template_is_ccu1", "cq_csdg_of_angle", "cq_ctdg_of_angle",
+                 "templates_as_modelled", "cq_const1_plain",
                  "cq_const1_conditional", "cq_const2_plain", "cq_const2_conditional", "cq_const_multi_plain",
                  "cq_param_rx", "cq_param_ry", "cq_param_rz", "cq_param_u1", "cq_param_cu1",
                  "cq_param_cry_blocks_partial", "cq_param_crx_blocks_partial",
@@ -85,7 +88,9 @@ SPEC = {
             "RX RY RZ U1 U2 U3 CX CY CZ Swap CH CRX CRY CRZ CS CSdg CT CTdg CU1 CU2 CU3 CV CVdg CCRX CCRY CCRZ CCX CCZ) with positive, "
             "negative, exotic (1e22, 1e300, 1e-300, 5e-324, -0, 2^53+1) , reference and random parameters: plain on a generic state, "
             "conditional on one measured bit, conditional on two bits with all four targets, as a Kron part, inside a Composite and a Loop, "
-            "inside a conditional Composite; 2500 (quick) / 30000 (thorough) random circuits on 0..5 qubits with 1..12 operations of every "
+            "inside a conditional Composite; conditional composites on every permuted placement of 3 qubits with permuted sub-placements and "
+            "control lists [2] [2,0] [1,2] [0,2] [1]; measure_all with every permutation of the bit list in X/Y/Z; zero-iteration loops "
+            "under a condition (plain, inside a composite, around a composite); 2500 (quick) / 30000 (thorough) random circuits on 0..5 qubits with 1..12 operations of every "
             "CircuitOp kind (gates incl. C<dyn>, Kron, Composite, Loop, nesting depth 3; conditional gates with empty / repeated / "
             "over-long control lists and targets beyond the list; measure X/Y/Z; measure_all X/Y/Z incl. permuted and short bit lists; "
             "peek; peek_all; reset; reset_all; barrier; mis-sized operand lists; NaN/inf parameters), half of them restricted to the gates "
@@ -101,11 +106,16 @@ SPEC = {
 def run(ctx):
     vlib.standard_flow(ctx, SPEC)
     ctx.assumptions += [
-        "cq_wellformed / cq_equiv (the property for all circuits outside the defect classes) is NOT proved: outside the classes it is "
-        "checked by (B) on every generated case; proved are the structure of the export, the refusals, the `not` bracketing, the meaning "
-        "of the constant gates' translations (exactly, through the model's own text) and of the parametrised ones listed in Props/C12",
-        "cq_param_cry_blocks_partial, cq_param_crx_blocks_partial: block level only (that cnot = 1 (+) X and 1 (x) A = A (+) A assemble "
-        "the blocks is not formalised); CU3, CCRX, CCRY, CSdg, CTdg templates: identity not proved, checked numerically by (B)",
+        "cq_equiv_partial (the equivalence half of the property for all circuits outside the defect classes) is NOT proved: outside the "
+        "classes it is checked by (B) on every generated case; proved are the structure of the export, the refusals, the `not` bracketing, "
+        "well-formedness for all circuits of the class `sound` (cq_wellformed_partial), and per gate the meaning of the translations",
+        "cq_wellformed_partial assumes GoodNum of the number printer: f64::to_string prints one decimal literal (false for NaN / inf) and "
+        "the C14 expression evaluator accepts the evaluated holes of the generated templates with printed numbers for the parameters "
+        "(an unevaluated hole would stay in the text and is caught by (A) and (B)); non-vacuous: unitNum_good",
+        "the assembled template identities are over any commutative ring with LawfulAmp/LawfulHalf/LawfulNegHalf/LawfulQuarter "
+        "(model: the complex numbers, Proofs/CQasmComplex.lean); template angles are read as the exact f64 products (0.5*x = x/2)",
+        "CSdg / CTdg: the text denotes CU1 of the decimal literal (16 digits of pi/2, pi/4), equal to C-Sdg / C-Tdg iff the angle is "
+        "exactly -pi/2 / -pi/4 (cq_csdg_of_angle, cq_ctdg_of_angle); numerically right to 5e-16 (checked by (B))",
         "Spec/CQ1 is my reading of cQASM 1.0 written from memory (crk = controlled phase pi/2^k; measure_x/measure_y rotate back; a "
         "sub-circuit header `.name(k)` extends to the next header, so `.end` opens a sub-circuit called `end`; bundles are one line, of "
         "instructions, not nested; one sign per numeric literal)",
